@@ -8,6 +8,7 @@
 
 mod alphabet;
 mod engine;
+mod fx;
 mod props;
 mod refcbor;
 mod report;
